@@ -681,3 +681,34 @@ Print Assumptions c02_headers_map_last_value.
 Print Assumptions c02_headers_map_pure.
 Print Assumptions c02_headers_map_reports.
 Print Assumptions c02_analysis_idempotent.
+
+(* ================================================================== the head writer's code itself (translated from the source) *)
+(** The resumable request-head writer of src/client/call.rs -- [try_write_prelude] with its loop, [try_write_prelude_part] with the
+    phase machine SendLine / SendHeaders(i) / SendBody, [do_write_send_line], [do_write_headers] with its loop over the remaining
+    headers, the blank line glued to the last header line, every line written all-or-nothing -- is translated on every run by
+    tools/rs2coq2.py (theories/Gen2.v, [gen_write_*]; the request is represented by the three rendered pieces of its request line and
+    its list of effective headers, [state.phase] is the one field the writer touches).  proofs/Gen2_equiv_prelude.v proves it equivalent
+    to the model's [try_write_prelude], which the theorems of this file are about, for every request with at least one effective header,
+    every phase and every capacity: same new phase, same bytes, the same refusal; the fuel of the translated loop suffices and the
+    translated code does not panic.  (With zero effective headers the Rust code computes [header_count - 1]: outside every property's
+    quantifier; the model has an explicit Panic there, the translation truncates.)  Trusted: the translator. *)
+From Hoot Require Import GenLib Gen2.
+From Hoot.proofs Require Import Gen2_equiv_prelude.
+Theorem c02_code_write_headers : forall hs index last avail out0,
+  let '(i', out') := write_headers hs index last avail out0 in
+  gen_write_headers hs index last avail out0 = Ok (i', avail - (len out' - len out0), out', tt).
+Proof. exact gen_write_headers_equiv. Qed.
+Theorem c02_code_write_prelude : forall a p cap,
+  am_headers a <> [] ->
+  match try_write_prelude a p cap with
+  | Ok (p', out) =>
+      gen_write_prelude (method_name (am_method a)) (match u_pq (am_eff_uri a) with [] => [47] | q => q end)
+                        (version_name (am_version a)) (am_headers a) p cap [] = Ok (p', cap - len out, out, tt)
+  | Err e =>
+      gen_write_prelude (method_name (am_method a)) (match u_pq (am_eff_uri a) with [] => [47] | q => q end)
+                        (version_name (am_version a)) (am_headers a) p cap [] = Err e
+  | Panic _ => False
+  end.
+Proof. exact gen_write_prelude_equiv. Qed.
+Print Assumptions c02_code_write_headers.
+Print Assumptions c02_code_write_prelude.
